@@ -1,1 +1,69 @@
-//! Hooks for property C06 (empty until needed).
+//! Hooks for property C06 (chunking is a lossless, bounded, content-defined partition).
+//!
+//! The chunker types are crate-private; these wrappers build the chunk iterator the
+//! archiver uses (`ChunkIter::from_config`) for a caller-supplied reader and expose
+//! the parameter check.  Add-only; nothing here is reachable in a normal build.
+use std::io::Read;
+
+use crate::{
+    chunker::{ChunkIter, rabin::check_rabin_params},
+    repofile::{ConfigFile, configfile::Chunker},
+};
+
+/// Chunker selection for [`chunk_all`].
+#[derive(Debug, Clone)]
+pub enum ChunkerSpec {
+    /// Rabin content-defined chunking: polynomial, average, minimum, maximum size.
+    Rabin { poly: u64, avg: usize, min: usize, max: usize },
+    /// Fixed-size chunking.
+    Fixed { size: usize },
+}
+
+/// The `ConfigFile` the archiver would see for `spec`.
+pub fn config_for(spec: &ChunkerSpec) -> ConfigFile {
+    let mut config = ConfigFile::default();
+    config.version = 2;
+    match *spec {
+        ChunkerSpec::Rabin { poly, avg, min, max } => {
+            config.chunker = Some(Chunker::Rabin);
+            config.chunker_polynomial = format!("{poly:x}");
+            config.chunk_size = Some(avg);
+            config.chunk_min_size = Some(min);
+            config.chunk_max_size = Some(max);
+        }
+        ChunkerSpec::Fixed { size } => {
+            config.chunker = Some(Chunker::FixedSize);
+            config.chunk_size = Some(size);
+        }
+    }
+    config
+}
+
+/// Run `ChunkIter::from_config(config, reader, size_hint)` to exhaustion (at most
+/// `max_chunks` items) and return the chunks, or the error text of the first error.
+pub fn chunk_all<R: Read + Send>(
+    spec: &ChunkerSpec,
+    reader: R,
+    size_hint: usize,
+    max_chunks: usize,
+) -> Result<Vec<Vec<u8>>, String> {
+    let config = config_for(spec);
+    let iter = ChunkIter::from_config(&config, reader, size_hint)
+        .map_err(|e| format!("new: {}", e.display_log()))?;
+    let mut out = Vec::new();
+    for item in iter {
+        match item {
+            Ok(chunk) => out.push(chunk),
+            Err(e) => return Err(format!("next: {}", e.display_log())),
+        }
+        if out.len() >= max_chunks {
+            return Err("too-many-chunks".to_string());
+        }
+    }
+    Ok(out)
+}
+
+/// `check_rabin_params` as the config layer calls it.
+pub fn rabin_params_accepted(avg: usize, min: usize, max: usize) -> bool {
+    check_rabin_params(avg, min, max).is_ok()
+}
